@@ -45,7 +45,11 @@ var vfC15Hosts = []string{
 
 func vfC15DrawRule(t *rapid.T, label string) string {
 	h := rapid.SampledFrom(vfC15Hosts).Draw(t, label+"_host")
-	switch rapid.IntRange(0, 15).Draw(t, label+"_rule") {
+	switch rapid.IntRange(0, 16).Draw(t, label+"_rule") {
+	case 16:
+		// the header line of lists put together from several lists: neither
+		// comment nor blank, so it counts -- wherever it stands
+		return rapid.SampledFrom([]string{"[Adblock Plus 2.0]", "[Adblock Plus 3.1]", "[Adblock]"}).Draw(t, label+"_header")
 	case 0, 1, 2:
 		return "||" + h + "^"
 	case 3:
